@@ -382,6 +382,8 @@ def omission_rule(ctx, rule: str) -> None:
               "v2version._format_segment_tree: some segments are dropped from the rendering", "", loc=fn.loc())
     fs = prog.function("v2version._format_segment")
     ctx.visit(fs.fq)
+    if format_segment_eval(ctx, rule):
+        return
     fg = cfgs.get(fs.fq)
     from sa.pathcond import expr_atoms
     seg_fields = prog.klass("v2version.FormatedSeg").fields
@@ -423,6 +425,54 @@ def omission_rule(ctx, rule: str) -> None:
     ctx.check(rule, lit_s.equiv(L) and zero_s.equiv(~L & ZP & ZA),
               "_format_segment: literal iff no part occurs; zero iff it has parts and every used part renders its zero value",
               "v2version._format_segment: classification of literal/zero segments changed", f"literal iff {lit_s.to_dnf()}; zero iff {zero_s.to_dnf()}", loc=fs.loc())
+
+
+def format_segment_eval(ctx, rule: str) -> bool:
+    """v2version._format_segment evaluated on segments with zero, one and two parts whose values are / are not the zero
+    value: literal iff no part occurs in the segment, zero iff it has parts and every part that occurs renders its zero value.
+    False when the function is outside what the evaluator handles (the structural rule decides then)."""
+    from sa.model import CannotFold, EvalError
+    prog = ctx.prog
+    fs = prog.function("v2version._format_segment")
+    fields = prog.klass("v2version.FormatedSeg").fields
+
+    def ctor(f: T.Any, node: ast.Call) -> T.Dict[str, T.Any]:
+        d = dict(zip(fields, [f(a) for a in node.args]))
+        d.update({k.arg: f(k.value) for k in node.keywords if k.arg})
+        return d
+
+    def is_zero_val(f: T.Any, node: ast.Call) -> bool:
+        vals = [f(a) for a in node.args] + [f(k.value) for k in node.keywords]
+        return vals[1] == {"MINOR": "0", "PATCH": "0", "TAG": "final", "NUM": "0"}.get(vals[0], "<none>")
+    cases = []
+    for seg in ("lit-", ".MINOR", ".MINOR.PATCH", "-TAGNUM", "MAJOR"):
+        for minor in ("0", "2"):
+            for patch in ("0", "3"):
+                for tag, num in (("final", "0"), ("rc", "0"), ("final", "1")):
+                    cases.append((seg, [("MAJOR", "0"), ("MINOR", minor), ("PATCH", patch), ("TAG", tag), ("NUM", num)]))
+    zero_of = {"MINOR": "0", "PATCH": "0", "TAG": "final", "NUM": "0"}
+    wrong: T.List[str] = []
+    n = 0
+    try:
+        for seg, pvs in cases:
+            env = {fs.params[0]: seg, fs.params[1]: list(pvs), "__strict__": True, "__stubs__": {"FormatedSeg": ctor, "version.is_zero_val": is_zero_val}}
+            try:
+                got, _ys = prog.run_body(fs, env)
+            except EvalError as ex:
+                got = f"raises: {ex}"
+            used = [(p_, v_) for p_, v_ in pvs if p_ in seg]
+            want_lit = not used
+            want_zero = bool(used) and all(zero_of.get(p_, "<none>") == v_ for p_, v_ in used)
+            n += 1
+            if not isinstance(got, dict) or bool(got.get("is_literal")) != want_lit or bool(got.get("is_zero")) != want_zero:
+                if len(wrong) < 3:
+                    wrong.append(f"segment {seg!r} with {dict(used)}: {got if not isinstance(got, dict) else (got.get('is_literal'), got.get('is_zero'))}, expected (literal, zero) = {(want_lit, want_zero)}")
+    except (CannotFold, TypeError, AttributeError, KeyError, ValueError, IndexError) as ex:
+        ctx.observe(f"v2version._format_segment not evaluated ({type(ex).__name__}: {str(ex)[:80]})")
+        return False
+    ctx.check(rule, not wrong, f"_format_segment: literal iff no part occurs; zero iff it has parts and every used part renders its zero value ({n} segments evaluated)",
+              "v2version._format_segment: classification of literal/zero segments changed", "; ".join(wrong), loc=fs.loc())
+    return True
 
 
 def _parse_defaults(ctx, pv) -> T.Dict[str, T.Any]:
